@@ -477,6 +477,10 @@ impl<'ast, 'm> Visit<'ast> for EffVisitor<'m> {
             // in a fuelled function `opt.unwrap()` leaves the function with None (no value) when opt is None
             self.eff.ret = true;
         }
+        if n == "zip" && i.args.len() == 1 {
+            // may drive an iterator value to a list (fuel): sequenced like a call
+            self.eff.ret = true;
+        }
         if n == "inspect" {
             // `opt.inspect(|_| { statements })` runs the statements
             for a in i.args.iter() {
@@ -546,6 +550,12 @@ impl<'ast, 'm> Visit<'ast> for EffVisitor<'m> {
     }
     fn visit_expr_continue(&mut self, _i: &'ast ExprContinue) {
         self.eff.ret = true;
+    }
+    fn visit_macro(&mut self, m: &'ast Macro) {
+        let n = m.path.segments.last().map(|s| s.ident.to_string()).unwrap_or_default();
+        if n == "panic" || n == "unreachable" || n == "unimplemented" || n == "todo" {
+            self.eff.ret = true;
+        }
     }
     fn visit_expr_closure(&mut self, i: &'ast ExprClosure) {
         // closures are translated as pure functions; the only writes looked for inside are the mutable sub-slice chains
